@@ -17,6 +17,8 @@ ENTRY = dict(
         "at least one byte per call": "theorem (C14.progress)",
         "never waits for more than the maximum frame size": "theorem (C14.bounded_consumption, never_waits_beyond_max) + correspondence (buffer level while blocked)",
         "producer loop keeps running": "theorem (C09Producer.producer_continues, stops_only_on_loss, producer_survives_noise: for EVERY byte stream the producer machine makes every read() of readAll and ends only at the end of the stream / a timeout / a write loss — never on a protocol error) + correspondence (real AsyncProtocol.frame_producer vs the machine at every quiescent point, harness/producer.py)",
+        "frames delivered after the noise reach the application (whole connection: producer and consumers), also when the noise contains checksum-valid stray frames from the non-controller addresses 0x00 / 0x56":
+            "correspondence (default AsyncProtocol fed noise + strays + a run; expected count from the reader model `read`; that every frame the reader hands out is handled or contained without losing a consumer is C09.never_stalls / no_consumer_dies / delivered_exactly_once)",
         "re-synchronisation after noise": "theorem under noInner68 (C14.resync_partial); full statement refuted (F2, C14.resync_full_false)",
     },
     assumptions=COMMON_ASSUME,
